@@ -279,6 +279,7 @@ EncVecs(lazy) ==
 ValidEnc(v) ==
    CASE v.sub = "pmsi" -> (v.u.ttype = 0 => v.u.id = <<>>) /\ (v.u.ttype = 6 => v.u.id # <<>>) /\ (v.u.ttype \notin {0, 6} => v.u.id = <<>>)
      [] v.sub = "srte" -> Len(v.u.nh) \in {4, 16}
+     [] v.sub = "srpol" -> \A i \in 1..Len(v.u.name) : v.u.name[i] < 128
      [] OTHER -> TRUE
 EncBytes(v) ==
    LET withAttr(t, val, ext) == LET a == EncAttrs(Base(TRUE), TRUE, FALSE) \o AttrTLV(t, val, ext)
@@ -291,7 +292,10 @@ EncBytes(v) ==
 FsPool ==
    {Mp("fs", TRUE, nh, <<r>>) : nh \in {<<>>}, r \in FsRules(0)}
    \cup {Mp("fs", FALSE, <<>>, <<r>>) : r \in FsRules(0)}
-   \cup {Mp("fs", TRUE, <<>>, <<a, b>>) : a, b \in {<<<<1, P4s[4]>>>>, <<<<2, P4s[1]>>>>, <<<<3, <<FsOp("=", 1, <<6>>)>>>>>>, <<<<5, <<FsOp(">=", 2, <<1, 0>>), FsOp("<", 1, <<255>>)>>>>>>}}
+   \* several rules per attribute, announced and withdrawn, short rules and rules of 240 octets and more in every order
+   \cup {Mp("fs", r, <<>>, <<a, b>>) : r \in BOOLEAN, a, b \in {<<<<1, P4s[4]>>>>, <<<<2, P4s[1]>>>>, <<<<3, <<FsOp("=", 1, <<6>>)>>>>>>, <<<<5, <<FsOp(">=", 2, <<1, 0>>), FsOp("<", 1, <<255>>)>>>>>>,
+                                                               <<<<5, [i \in 1..80 |-> FsOp("=", 2, <<1, i>>)]>>>>, <<<<6, [i \in 1..100 |-> FsOp("=", 2, <<2, i>>)]>>>>}}
+   \cup {Mp("fs", r, <<>>, <<a, b, c>>) : r \in BOOLEAN, a, b, c \in {<<<<1, P4s[4]>>, <<3, <<FsOp("=", 1, <<6>>)>>>>>>, <<<<5, [i \in 1..80 |-> FsOp("=", 2, <<1, i>>)]>>>>}}
 MpPool(fam) ==
    CASE fam = "ipv6" -> Ipv6Pool [] fam \in {"lu4", "lu6"} -> LuPool(fam) [] fam \in {"vpn4", "vpn6"} -> VpnPool(fam)
      [] fam = "evpn" -> EvpnPool [] fam = "fs" -> FsPool
